@@ -37,9 +37,30 @@ KNOWN_FILE = os.path.join(VERIF, "known_findings.json")
 # --------------------------------------------------------------------------
 # case execution (inside worker / forked child)
 # --------------------------------------------------------------------------
+def _own_rng(case):
+    """The global NumPy / Python generators are seeded from OS entropy when a
+    worker starts; give every execution a state that depends only on the
+    case (and VERIF_SEED), so that code drawing unseeded random numbers is
+    still reproducible between the exploring run and the confirming run."""
+    import random
+    import zlib
+    try:
+        base = int(os.environ.get("VERIF_SEED", "0"))
+    except ValueError:
+        base = 0
+    sd = (zlib.crc32(str(case.get("id")).encode()) + base) % (2 ** 32)
+    random.seed(sd)
+    try:
+        import numpy as np
+        np.random.seed(sd)
+    except Exception:
+        pass
+
+
 def _exec_case(mod, case):
     t0 = time.time()
     try:
+        _own_rng(case)
         res = mod.run_case(case)
         if res is None:
             res = {}
